@@ -580,6 +580,14 @@ func c11Cram(rng *rand.Rand, hostile bool) []byte {
 		for k := 0; k < nl; k++ {
 			h.Write(i8(int32(rng.Intn(1000))))
 		}
+		if hostile && rng.Intn(5) == 0 {
+			// a length that lies: negative, and in particular minus the size
+			// of this very header (a reader that skips by seeking lands on
+			// the container again)
+			hb := h.Bytes()
+			bl := []int32{-int32(len(hb) + 4), -1, -int32(len(hb)), int32(blocks.Len()) + 7, 0x7fffffff}[rng.Intn(5)]
+			hb[0], hb[1], hb[2], hb[3] = byte(bl), byte(bl>>8), byte(bl>>16), byte(bl>>24)
+		}
 		var crc [4]byte
 		putCRC(crc[:], h.Bytes())
 		h.Write(crc[:])
@@ -731,6 +739,11 @@ func c11Decode(e string, in []byte, variant int) (reads int, over bool) {
 			br.Omit(variant % 3)
 			h := br.Header()
 			consumeHeader(h)
+			if refs := h.Refs(); len(refs) > 0 && len(in)%5 == 0 {
+				// the header handed out is the caller's to edit: records on a
+				// reference that is gone must give an error, not a panic
+				h.RemoveReference(refs[len(refs)-1])
+			}
 			for i := 0; i < 1000; i++ {
 				rec, err := br.Read()
 				if err != nil {
@@ -857,11 +870,27 @@ func c11Decode(e string, in []byte, variant int) (reads int, over bool) {
 		}
 		return st.n, st.over
 	case "cram":
+		// a plain source or (odd variants) one that can seek; a container
+		// takes at least 15 bytes and a block at least 9, so more of either
+		// than the input can hold means the walk does not terminate
 		st := newStep(in)
-		if cr, err := cram.NewReader(st); err == nil {
-			for i := 0; cr.Next() && i < 100; i++ {
+		var src io.Reader = st
+		if variant%2 == 1 {
+			ss := newStepSeeker(in)
+			st, src = ss.stepReader, ss
+		}
+		if cr, err := cram.NewReader(src); err == nil {
+			nc := 0
+			for cr.Next() {
+				if nc++; nc > len(in)/15+2 {
+					return st.n, true
+				}
 				ct := cr.Container()
-				for j := 0; ct.Next() && j < 100; j++ {
+				nb := 0
+				for ct.Next() {
+					if nb++; nb > len(in)/9+2 {
+						return st.n, true
+					}
 					v, err := ct.Block().Value()
 					if h, ok := v.(*sam.Header); ok && err == nil {
 						consumeHeader(h)
